@@ -247,6 +247,10 @@ pub struct Case {
     /// pixels per cell (height, width)
     pub ppc: (usize, usize),
     pub win: Win,
+    /// the whole case (deserialisation, layout, render) runs while a `tracing` subscriber that
+    /// formats every field of every event and span is this thread's default
+    #[serde(default)]
+    pub listen: bool,
 }
 
 // ---------------------------------------------------------------------------------------
@@ -1468,6 +1472,12 @@ fn frame_under_zero_cell_width(case: &Case) -> bool {
 }
 
 fn check_case(case: &Case) -> Outcome {
+    // with_default is per thread and the subscriber's callsite interest is `sometimes`: the
+    // other shard threads keep behaving as a process without a subscriber
+    crate::c19::listener::check_under(case.listen, &|| check_case_plain(case))
+}
+
+fn check_case_plain(case: &Case) -> Outcome {
     let mut fails: Vec<Fail> = Vec::new();
     let mut obs = Obs::default();
     for ct in &case.cts {
@@ -1883,8 +1893,10 @@ impl Property for C10 {
                 1 => sel(&[(0usize, 8usize), (16, 0)]),
             ],
             prop_oneof![5 => Just(Win::Max), 1 => Just(Win::Smaller), 1 => Just(Win::Larger), 1 => Just(Win::LayoutSize)],
+            // process configuration: a tracing subscriber listening to everything (1 case in 4)
+            proptest::bool::weighted(0.25),
         )
-            .prop_map(|(src, cts, glyphs, ppc, win)| Case { src, cts, glyphs, ppc, win })
+            .prop_map(|(src, cts, glyphs, ppc, win, listen)| Case { src, cts, glyphs, ppc, win, listen })
             .boxed()
     }
 
@@ -1903,7 +1915,9 @@ impl Property for C10 {
          or (1 in 4) the JSON form (text, flex with raw flex factors -2/0/1e308/..., container, tag, color, glyph, image, image_ascii, trace-layout, ref) through ViewDeserializer; \
          1..=3 constraints per tree with extents from {0,1,2,3,7,20,80} (min<=max; general, loose, tight); glyph capability on/off; context = ViewContext::new of a 24x80-cell terminal with 4 pixel-per-cell settings (6 in 10), \
          with no pixel size at all (pixels 0x0 => 0x0 pixels per cell, 3 in 10) or with fewer pixels than cells in one direction (0x8, 16x0; 1 in 10); \
-         render window = max / max-1 / max+3 / root layout size inside a sentinel canvas. \
+         render window = max / max-1 / max+3 / root layout size inside a sentinel canvas; \
+         1 case in 4 runs (deserialisation, layout, render) while a hand-written tracing::Subscriber is the thread's default: every level enabled, every field of every event / span formatted \
+         with {:?} into a discarding sink, so field expressions and Debug impls of the recorded values run (labels tracing-subscriber/...). \
          non-trivial = (built tree with >= 2 levels in which >= 1 probe painted >= 1 cell) or some constraint with a maximal extent <= 1; JSON trees count only if they deserialised".into()
     }
 
@@ -1916,6 +1930,7 @@ impl Property for C10 {
             "JSON trees carry no probes or inner spies: termination, containment and the size clause for the root view only; JSON that fails to deserialise is outside the property".into(),
             "unbounded recursion is detected by a nesting counter in the wrapper (limit 200, real nesting <= ~30) instead of letting the stack overflow".into(),
             "harness built with overflow checks: an arithmetic wrap in the library surfaces as a panic".into(),
+            "'never panics' names no process configuration: it is read over processes with and without a `tracing` subscriber installed (most demanding ordinary one: all levels, all fields formatted, output discarded; per thread through with_default, callsite interest `sometimes`, so the other shard threads are not affected). Only the existing oracles are applied under it; a failure is run again without the subscriber and keeps its plain signature if it fails there too, else it is prefixed `tracing-subscriber/`".into(),
             "'any tree ... never panics' is read over every context ViewContext::new can produce: a terminal that reports no pixel size (src/unix.rs handles `pixels.is_empty()`; TerminalSize::pixels_per_cell then yields 0x0) is a legal configuration; what an image, glyph or frame draws there is not judged, only termination, containment and the size clause".into(),
         ]
     }
